@@ -364,7 +364,14 @@ where
                 let (req, sent) = send_req(Ok(value));
                 match tx.send(req).await {
                     Ok(()) => Ok(sent),
-                    Err(err) => Err(SendError::Closed(err.0.value.expect("unreachable"))),
+                    Err(err) => {
+                        // The channel may have failed while waiting for queue space.
+                        let value = err.0.value.expect("unreachable");
+                        match self.remote_send_err_rx.borrow().as_ref() {
+                            Some(err) => Err(SendError::from_remote_send_error(err.clone(), value)),
+                            None => Err(SendError::Closed(value)),
+                        }
+                    }
                 }
             }
             None => Err(SendError::Closed(value)),
